@@ -148,10 +148,15 @@ where
         mut y: Self::State,
         id: &ID,
     ) -> Result<(Self::State, Option<OneTimeKeyBundle>), Self::Error> {
-        let bundle = y
-            .onetime_bundles
-            .get_mut(id)
-            .and_then(|bundles| bundles.pop());
+        // Bundles were valid when they got added but might have expired since: skip (and drop) them.
+        let bundle = y.onetime_bundles.get_mut(id).and_then(|bundles| {
+            while let Some(bundle) = bundles.pop() {
+                if bundle.lifetime().verify().is_ok() {
+                    return Some(bundle);
+                }
+            }
+            None
+        });
         Ok((y, bundle))
     }
 }
